@@ -11,9 +11,9 @@ import (
 	"pgregory.net/rapid"
 )
 
-var nameAlphabet = []string{"a", "b", "c", "lib", "d.txt", "e.json", "f.lock", "x y", "-z", "A", ".hidden", "node_modules", "g.txt", "h", "lib64", "ab", "a.b"}
+var nameAlphabet = []string{"a", "b", "c", "lib", "d.txt", "e.json", "f.lock", "x y", "-z", "A", ".hidden", "node_modules", "g.txt", "h", "lib64", "ab", "a.b", " a", "..c"}
 
-var giLines = []string{"a", "b", "lib", "lib/", "*.txt", "*.json", "/a", "/d.txt", "a/b", "b/c", "c/d.txt", "# comment", "", "h", "node_modules/", "g.txt", "x y", "-z", "/lib/"}
+var giLines = []string{"a", "b", "lib", "lib/", "*.txt", "*.json", "/a", "/d.txt", "a/b", "b/c", "c/d.txt", "# comment", "", "h", "node_modules/", "g.txt", "x y", "-z", "/lib/", ".*", "*", " a", "..c"}
 
 var skipRegexes = []string{"^a$", "b", "lib", "^a/b$", "node_modules$", "/c$", "^[A-Z]$"}
 var skipGlobs = []string{"lib", "*/lib", "a/*", "*b*", "{a,c}", "*/c", "A"}
